@@ -50,7 +50,8 @@ def spectral_norm(X_data, X_indptr, X_indices, n_samples,
 
         # norm(X @ X.T @ eigenvector - eigenvalue * eigenvector) <= tol
         # inequality (5.25) in ref [1] is squared
-        if norm_vec ** 2 - eigenvalue ** 2 <= tol ** 2:
+        # relative test: an absolute one stops at the first iterate when ||X|| ** 2 ~ tol
+        if norm_vec ** 2 - eigenvalue ** 2 <= (tol * eigenvalue) ** 2:
             break
 
         eigenvector = vec / norm_vec
